@@ -127,7 +127,11 @@ class Constraint:
         rv = np.asarray(rhs, dtype=object).reshape(-1)
         assert len(rv) in (1, len(self.lhs.rows)), (len(rv), len(self.lhs.rows))
         for k, (co, c0) in enumerate(self.lhs.rows):
-            out.append((dict(co), self.op, rv[k if len(rv) > 1 else 0] - c0))
+            r_ = rv[k if len(rv) > 1 else 0]
+            if isinstance(r_, float) and r_ in (float('inf'), float('-inf')):
+                out.append((dict(co), self.op, r_))        # an infinite bound stays what it is (the solver sees "no limit")
+            else:
+                out.append((dict(co), self.op, r_ - c0))
         return out
 
 
